@@ -101,6 +101,13 @@ class Tree:
 class Chain:
     nxt: typing.Optional["Chain"] = None
     links: tuple["Chain", ...] = ()
+class TNode(typing.NamedTuple):
+    # recursive structured classes that DERIVE from a standard-library container (tuple, dict)
+    value: int
+    nxt: typing.Optional["TNode"] = None
+class DTree(typing.TypedDict):
+    value: int
+    children: typing.List["DTree"]
 @dataclasses.dataclass
 class FinalFree(typing.Generic[T]):
     item: typing.Final[T]
@@ -128,7 +135,7 @@ LEAVES = ["int", "str", "typing.Any", "object", "list", "dict", "tuple", "set", 
           # named tuples made by the collections factory: no annotations at all, the fields are pass-through positions
           "PlainNT", "PairNT",
           # recursive user classes (members of U): every container of them builds, whatever anonymous type their fields share with it
-          "Tree", "Chain"]
+          "Tree", "Chain", "TNode", "DTree"]
 UNARY = ["list[{0}]", "typing.List[{0}]", "tuple[{0}, ...]", "dict[str, {0}]", "typing.Optional[{0}]", "typing.Sequence[{0}]",
          "collections.abc.Mapping[str, {0}]", "frozenset[{0}]", "G[{0}]"]
 BINARY = ["tuple[{0}, {1}]", "typing.Union[{0}, {1}]", "dict[{0}, {1}]"]
@@ -189,8 +196,25 @@ def child(job):
 
         def build():
             return typelib.marshaller(t), typelib.unmarshaller(t), typelib.codec(t)
+
+        class _Unbounded(BaseException):
+            pass
+
+        def _alarm(sig, frame):
+            raise _Unbounded()
+        import signal
+        old_handler = signal.signal(signal.SIGALRM, _alarm)
+        signal.alarm(8)           # a construction takes milliseconds; "without unbounded recursion" includes a walk that never ends
         try:
-            m, u, c = build()
+            try:
+                m, u, c = build()
+            finally:
+                signal.alarm(0)
+                signal.signal(signal.SIGALRM, old_handler)
+        except _Unbounded:
+            o["construct"] = "did not terminate within 8 s (the walk of the type graph does not end)"
+            out.append(o)
+            return out            # (the state of this process is not to be trusted after an interrupted walk; the rest of the batch is rejudged)
         except RecursionError as e:
             o["construct"] = "RecursionError"
             out.append(o)
@@ -354,6 +378,13 @@ def explore(ctx):
     core.import_typelib()
     jobs = [anns[i:i + 12] for i in range(0, len(anns), 12)]
     outs = iso.map_isolated(child, jobs, timeout=120)
+    # a batch that stopped at a construction which did not terminate: the annotations after it are judged alone
+    cut = [(bi, job[len(out):]) for bi, (job, out) in enumerate(zip(jobs, outs)) if isinstance(out, list) and len(out) < len(job)]
+    if cut:
+        flat = [(bi, src) for bi, rest in cut for src in rest]
+        for (bi, src), out in zip(flat, iso.map_isolated(child, [[src] for _, src in flat], timeout=60)):
+            outs[bi] = outs[bi] + (out if isinstance(out, list) and out else
+                                   [{"src": src, "construct": f"killed the interpreter: {out.get('crash') if isinstance(out, dict) else out}"}])
     # a repeatability failure inside a batch may be cross-talk between ==-equal annotations of the batch (Union[str, int] next to
     # Union[int, str]: the caches are keyed by ==, finding unionOrderKey of C05/C12): the annotation is judged again alone
     redo = [o["src"] for out in outs if isinstance(out, list) for o in out
